@@ -4,16 +4,20 @@
 (* Lock before it is finalized (revision reconciler deletion branch +      *)
 (* PackageDependencyManager.RemoveSelf).  One action per API call, each    *)
 (* may fail (no effect, reconcile ends) or crash after taking effect.      *)
+(* The revision may be Active or Inactive when it is deleted (an Inactive  *)
+(* one can still be listed: deactivated and deleted in one pass of the     *)
+(* package manager, or its deactivating reconcile failed before the Lock): *)
+(* the deletion branch is the same for both.                               *)
 (***************************************************************************)
 EXTENDS Integers, Sequences, TLC
 CONSTANTS MaxRecs, MaxFaults, LockStates   \* LockStates \subseteq {"entry", "noentry", "nolock"}
-VARIABLES lock, fin, ex, pc, recs, faults, hist
-vars == <<lock, fin, ex, pc, recs, faults, hist>>
-view == <<lock, fin, ex, pc, recs, faults>>
+VARIABLES lock, desired, fin, ex, pc, recs, faults, hist
+vars == <<lock, desired, fin, ex, pc, recs, faults, hist>>
+view == <<lock, desired, fin, ex, pc, recs, faults>>
 H(k, f) == [t |-> "call", k |-> k, o |-> "", f |-> f]
 Log(e) == hist' = Append(hist, e)
-Init == /\ lock \in LockStates /\ fin = TRUE /\ ex = TRUE /\ pc = "idle" /\ recs = 0 /\ faults = 0
-        /\ hist = << [t |-> "init", k |-> lock, o |-> "", f |-> ""] >>
+Init == /\ lock \in LockStates /\ desired \in {"Active", "Inactive"} /\ fin = TRUE /\ ex = TRUE /\ pc = "idle" /\ recs = 0 /\ faults = 0
+        /\ hist = << [t |-> "init", k |-> lock, o |-> desired, f |-> ""] >>
 End == pc' = "idle" /\ recs' = recs + 1
 Ok(k) == Log(H(k, "ok")) /\ UNCHANGED faults
 Fail(k) == faults < MaxFaults /\ faults' = faults + 1 /\ Log(H(k, "error")) /\ End
@@ -36,7 +40,7 @@ RemFin == /\ pc = "remfin"
              \/ /\ Fail("update:rev") /\ UNCHANGED <<fin, ex>>
              \/ /\ Crash("update:rev") /\ fin' = FALSE /\ ex' = FALSE
           /\ UNCHANGED lock
-Next == Get \/ GetLock \/ UpdLock \/ RemFin
+Next == (Get \/ GetLock \/ UpdLock \/ RemFin) /\ UNCHANGED desired
 Spec == Init /\ [][Next]_vars
 LockBeforeFin == [][(fin /\ ~fin') => lock # "entry"]_vars
 =============================================================================
